@@ -353,15 +353,52 @@ func checkC02(c *Ctx) {
 	c.strategyHealthGuard()
 	c.selectionComplete()
 
-	handle := p.Fn("internal/loadbalancer", "LoadBalancer", "handleRequest")
+	// the function in which the proxied backend is chosen: the forwarding function itself, or — when
+	// the backend is handed to it as a parameter — its caller
 	sp := c.lbSpec()
-	// the value that is proxied, and the branch that tests it against nil
+	var handle *ssa.Function
 	var proxied ssa.Value
-	if handle != nil {
-		for _, ci := range callsIn(handle) {
-			if strings.HasSuffix(CalleeName(ci), "LoadBalancer).proxyRequest") {
-				proxied = stripConv(ci.Common().Args[1])
+	if pf := c.proxyFn(); pf != nil {
+		handle = pf
+		instrsOf(pf, func(in ssa.Instruction) {
+			ci, ok := in.(ssa.CallInstruction)
+			if !ok || CalleeName(ci) != "(*net/http/httputil.ReverseProxy).ServeHTTP" {
+				return
 			}
+			if ld, ok := stripConv(ci.Common().Args[0]).(*ssa.UnOp); ok {
+				if fa, ok := ld.X.(*ssa.FieldAddr); ok {
+					proxied = stripConv(fa.X)
+				}
+			}
+		})
+		for hops := 0; hops < 3; hops++ {
+			proxied = singleStore(proxied)
+			prm, isParam := proxied.(*ssa.Parameter)
+			if !isParam {
+				break
+			}
+			idx := -1
+			for i, q := range handle.Params {
+				if q == prm {
+					idx = i
+				}
+			}
+			var caller *ssa.Function
+			var arg ssa.Value
+			for _, f := range p.Funcs {
+				if !p.InScope(f) {
+					continue
+				}
+				for _, ci := range callsIn(f) {
+					if StaticFn(ci) == handle && idx >= 0 && idx < len(ci.Common().Args) {
+						caller, arg = f, stripConv(ci.Common().Args[idx])
+					}
+				}
+			}
+			if caller == nil {
+				break
+			}
+			handle, proxied = caller, arg
 		}
 	}
 	isNilTest := func(cond ssa.Value) bool {
@@ -369,7 +406,7 @@ func checkC02(c *Ctx) {
 		if !ok || (b.Op != token.EQL && b.Op != token.NEQ) || proxied == nil {
 			return false
 		}
-		return (stripConv(b.X) == proxied && isConstNil(b.Y)) || (stripConv(b.Y) == proxied && isConstNil(b.X))
+		return (singleStore(b.X) == proxied && isConstNil(b.Y)) || (singleStore(b.Y) == proxied && isConstNil(b.X))
 	}
 	sp.Cond = func(in *ssa.If, fr *Frame) string {
 		if fr != nil && fr.Fn == handle && isNilTest(in.Cond) {
@@ -446,6 +483,54 @@ func (c *Ctx) dispatchGuard() {
 		}
 		seen[v] = true
 		switch x := v.(type) {
+		case *ssa.Parameter:
+			// handed in by the callers: every call site must deliver a guarded value
+			idx := -1
+			for i, q := range fn.Params {
+				if q == x {
+					idx = i
+				}
+			}
+			n := 0
+			okAll := true
+			for _, caller := range p.Funcs {
+				if !p.InScope(caller) {
+					continue
+				}
+				for _, ci := range callsIn(caller) {
+					if StaticFn(ci) != fn || idx < 0 {
+						continue
+					}
+					args := ci.Common().Args
+					if idx >= len(args) {
+						continue
+					}
+					n++
+					if !guarded(caller, args[idx], ci.Block(), depth+1, map[ssa.Value]bool{}, why) {
+						okAll = false
+					}
+				}
+			}
+			return n > 0 && okAll
+		case *ssa.FreeVar:
+			// captured by a closure (deferred accounting, …): resolve to the binding in the parent
+			if par := fn.Parent(); par != nil {
+				for i, fv := range fn.FreeVars {
+					if fv != x {
+						continue
+					}
+					okAll, n := true, 0
+					instrsOf(par, func(in ssa.Instruction) {
+						if mc, isMC := in.(*ssa.MakeClosure); isMC && mc.Fn == ssa.Value(fn) && i < len(mc.Bindings) {
+							n++
+							if !guarded(par, mc.Bindings[i], mc.Block(), depth+1, map[ssa.Value]bool{}, why) {
+								okAll = false
+							}
+						}
+					})
+					return n > 0 && okAll
+				}
+			}
 		case *ssa.Phi:
 			for i, e := range x.Edges {
 				if e == ssa.Value(x) {
@@ -493,16 +578,26 @@ func (c *Ctx) dispatchGuard() {
 			continue
 		}
 		for _, ci := range callsIn(fn) {
-			if CalleeName(ci) == "(*net/http/httputil.ReverseProxy).ServeHTTP" && fn.Name() != "proxyRequest" {
-				c.Fail("dispatch-guard", p.FuncKey(fn)+"/direct-proxy-call", p.InstrPos(ci), "a backend's ReverseProxy is invoked outside proxyRequest (bypasses the health-guarded dispatch)")
-			}
-			if !strings.HasSuffix(CalleeName(ci), "LoadBalancer).proxyRequest") {
+			if CalleeName(ci) != "(*net/http/httputil.ReverseProxy).ServeHTTP" {
 				continue
 			}
+			// the backend whose proxy is invoked: x in x.ReverseProxy.ServeHTTP(…)
+			var be ssa.Value
+			if ld, ok := stripConv(ci.Common().Args[0]).(*ssa.UnOp); ok {
+				if fa, ok := ld.X.(*ssa.FieldAddr); ok {
+					if f, ok := fieldRefOf(fa); ok && f.Key() == "loadbalancer.Backend.ReverseProxy" {
+						be = fa.X
+					}
+				}
+			}
 			nSites++
+			construct := p.FuncKey(outermost(fn)) + "/proxied-backend"
+			if be == nil {
+				c.Undecided("dispatch-guard", construct, p.InstrPos(ci), "cannot identify the backend whose ReverseProxy is invoked")
+				continue
+			}
 			var why []string
-			construct := p.FuncKey(fn) + "/proxyRequest-argument"
-			if guarded(fn, ci.Common().Args[1], ci.Block(), 0, map[ssa.Value]bool{}, &why) {
+			if guarded(fn, be, ci.Block(), 0, map[ssa.Value]bool{}, &why) {
 				c.Pass("dispatch-guard", construct, p.InstrPos(ci), "the proxied backend passed IsBackendHealthy(that backend) on every path that delivers it")
 			} else {
 				if len(why) == 0 {
@@ -512,7 +607,7 @@ func (c *Ctx) dispatchGuard() {
 			}
 		}
 	}
-	c.Floor("dispatch-guard", nSites, 1, "proxyRequest call sites")
+	c.Floor("dispatch-guard", nSites, 1, "ReverseProxy.ServeHTTP call sites")
 }
 
 // healthSpec: events on Backend health state.
@@ -849,13 +944,34 @@ func (c *Ctx) ejectorTotal() {
 // passiveThreshold: C04 clause 2.
 func (c *Ctx) passiveThreshold() {
 	p := c.P
+	// the accounting of a finished exchange: recordRequestMetrics when it is a function of its own,
+	// otherwise the function that forwards the request (with its deferred accounting inlined)
 	rec := p.Fn("internal/loadbalancer", "LoadBalancer", "recordRequestMetrics")
+	if rec == nil {
+		rec = c.proxyFn()
+	}
 	cnt := "fld:loadbalancer.healthChecker.unhealthyBackends[fld:loadbalancer.Backend.Name]"
 	c.traceRule("passive-threshold", "loadbalancer.(*LoadBalancer).recordRequestMetrics", rec, c.healthSpec(),
 		"passive accounting runs iff status ≥ 500 ∧ passive enabled; the per-backend counter is incremented under its lock, compared ≥ threshold, and reset after ejecting",
 		func(t *Trace) string {
-			st, _, okS := c.findRel(t, "statusCode", "", 0, -1)
+			// the server-error test: a comparison of the captured status with the 500 boundary
+			var st Rel
+			okS := false
+			for _, it := range t.Items {
+				if _, isIf := it.Instr.(*ssa.If); !isIf {
+					continue
+				}
+				r := c.condRel(it)
+				if r.OK && r.Pred == "" && r.Y == "" && (strings.Contains(r.X, "statusCode") || strings.Contains(r.X, "StatusCode")) {
+					if !okS || r.Lo == 500 || r.Hi == 499 {
+						st, okS = r, true
+					}
+				}
+			}
 			if !okS {
+				if t.Exit != ExitNormal {
+					return ""
+				}
 				return "undecided: status is not tested"
 			}
 			failed := st.Lo == 500 && st.Hi == posInf
@@ -1003,8 +1119,29 @@ func (c *Ctx) probeEdges() {
 // healthMirror: C04 clause 4.
 func (c *Ctx) healthMirror() {
 	p := c.P
-	for _, name := range []string{"MarkBackendUnhealthy", "IsBackendHealthy", "processHealthCheckResponse"} {
-		fn := p.Fn("internal/loadbalancer", "LoadBalancer", name)
+	// every function that stores the health flag of a published backend (discovered, not listed)
+	fresh := p.Freshness()
+	var writers []*ssa.Function
+	for _, fn := range p.Funcs {
+		if !p.InScope(fn) {
+			continue
+		}
+		stores := false
+		instrsOf(fn, func(in ssa.Instruction) {
+			if k, st := storeKey(in); k == "loadbalancer.Backend.IsHealthy" {
+				if !fresh.IsFresh(st.Addr.(*ssa.FieldAddr).X, 0) {
+					stores = true
+				}
+			}
+		})
+		if stores && fn.Parent() == nil {
+			writers = append(writers, fn)
+		}
+	}
+	sort.Slice(writers, func(i, j int) bool { return writers[i].Name() < writers[j].Name() })
+	c.Floor("health-mirror-in-critical-section", len(writers), 3, "functions storing the health flag")
+	for _, fn := range writers {
+		name := fn.Name()
 		c.traceRule("health-mirror-in-critical-section", "loadbalancer.(*LoadBalancer)."+name, fn, c.healthSpec(),
 			"each flag store is followed by UpdateBackendHealth(name, same value) before the backend lock is released",
 			func(t *Trace) string {
@@ -1296,4 +1433,32 @@ func (c *Ctx) mirrorDelivered() {
 			}
 			return ""
 		})
+}
+
+// singleStore looks through a local variable cell that is assigned exactly once (a parameter or
+// local captured by a closure is spilled into such a cell).
+func singleStore(v ssa.Value) ssa.Value {
+	for i := 0; i < 3; i++ {
+		ld, ok := stripConv(v).(*ssa.UnOp)
+		if !ok {
+			return stripConv(v)
+		}
+		cell, ok := ld.X.(*ssa.Alloc)
+		if !ok || cell.Referrers() == nil {
+			return stripConv(v)
+		}
+		var stored ssa.Value
+		n := 0
+		for _, r := range *cell.Referrers() {
+			if st, isSt := r.(*ssa.Store); isSt && st.Addr == ssa.Value(cell) {
+				stored = st.Val
+				n++
+			}
+		}
+		if n != 1 {
+			return stripConv(v)
+		}
+		v = stored
+	}
+	return stripConv(v)
 }
